@@ -412,6 +412,51 @@ func TestVerifC12(t *testing.T) {
 			res.Sample(8, map[string]any{"case": rq.desc, "class": rq.class, "status": status})
 		}
 	}
+	// E2: sequences of valid uploads, including different reports with the same week and X: after
+	// every accepted request the named object decodes to the report just sent.
+	if p.Mine(0) {
+		mk := func(week string, x float64, c int64) *telemetry.Report {
+			r := *bases["one"]
+			pr := *r.Programs[0]
+			pr.Counters = map[string]int64{"c": c}
+			r.Programs = []*telemetry.ProgramReport{&pr}
+			r.Week, r.X = week, x
+			return &r
+		}
+		pool := []*telemetry.Report{mk("2023-01-01", 0.5, 1), mk("2023-01-01", 0.5, 2), mk("2023-01-01", 0.25, 3), mk("2023-01-08", 0.5, 4), bases["empty"]}
+		var seqs [][]int
+		for a := range pool {
+			for b := range pool {
+				seqs = append(seqs, []int{a, b})
+				for c := range pool {
+					seqs = append(seqs, []int{a, b, c})
+				}
+			}
+		}
+		for _, seq := range seqs {
+			os.RemoveAll(srv.cfg.LocalStorage)
+			os.MkdirAll(uploaded, 0o777)
+			latest := map[string]*telemetry.Report{}
+			for _, i := range seq {
+				rep := pool[i]
+				status, pan := srv.do("POST", "/upload/x", zzvJSON(rep))
+				res.Evaluations++
+				if pan != nil || status != 200 {
+					res.Violate("valid-report-refused", fmt.Sprintf("valid report answered %d in sequence %v", status, seq), map[string]any{"sequence": seq})
+					continue
+				}
+				latest[fmt.Sprintf("%s/%g.json", rep.Week, rep.X)] = rep
+				for name, want := range latest {
+					data, err := os.ReadFile(filepath.Join(uploaded, name))
+					var got telemetry.Report
+					if err != nil || json.Unmarshal(data, &got) != nil || string(zzvJSON(&got)) != string(zzvJSON(want)) {
+						res.Violate("object-content-after-sequence", fmt.Sprintf("after the uploads %v the object %s does not decode to the report last sent under that name", seq, name), map[string]any{"sequence": seq})
+					}
+				}
+			}
+			res.Class(fmt.Sprintf("sequence/len=%d/objects=%d", len(seq), len(latest)))
+		}
+	}
 	res.Transitions = res.Evaluations
 	res.States = res.Evaluations
 	res.Validated = res.Evaluations
